@@ -15,7 +15,9 @@ where `exp`/`log` occur (transition density, grid log-weights) also run over `Fl
   linmodel n m idx.. rr rc                         -> accept H | reject k
   sim <traj> nops ops..                            -> ok out..
   sensor <traj> m idx.. SR nd draws nops ops..     -> ok out..
-  sensor_descr lin circ noise m idx.. rr           -> ok lin circ noise mlin mcirc
+  sensor_descr lin circ noise quat n m idx.. rr    -> ok input(lin circ noise quat total dof) meas-from-H(lin circ noise total) same|differs
+  wna_plumb dim T q T2                             -> ok setProperty x2, setSamplingTime flag, unchanged|changed
+  wna_move dim T q dim2 T2 q2 mode c1 c2 S nd draws -> ok n F Q Y pos   (moved object)
   grid xinf xsup yinf ysup nx ny R N state weight  -> ok flag state weight(Float)
  where <traj> = aff n L A b x0 | wna dim T q L x0 S nd draws
 -/
@@ -256,15 +258,48 @@ def sensor : R String := do
   else failure
 
 def sensor_descr : R String := do
-  let lin ← nat; let circ ← nat; let noise ← nat
-  let m ← nat
+  let lin ← nat; let circ ← nat; let noise ← nat; let quat ← bool
+  let n ← nat; let m ← nat
   let idx ← listOf m nat
   let rr ← nat
   done
-  let st : Descr := ⟨lin, circ, noise⟩
+  let st : Descr := { lin := lin, circ := circ, noise := noise, quat := quat }
   let i := sensorInputDescr st rr
-  let md := sensorMeasDescr st idx
-  pure s!"ok {i.lin} {i.circ} {i.noise} {md.lin} {md.circ}"
+  -- the measurement description as the constructor computes it: from H, against the input description
+  let H : Mat Rat idx.length n := linearModelH n idx
+  let md := sensorMeasDescrH i H
+  let md2 := sensorMeasDescr i idx
+  pure s!"ok {i.lin} {i.circ} {i.noise} {if i.quat then 1 else 0} {i.totalSize} {i.dofSize} {md.lin} {md.circ} {md.noise} {md.totalSize} {if md == md2 then "same" else "differs"}"
+
+/-- setProperty / setSamplingTime plumbing and hand-over of a WhiteNoiseAcceleration object -/
+def wna_plumb : R String := do
+  let d ← dim; let T ← rat; let q ← rat; let T2 ← rat
+  done
+  let (ok, (d', T', q')) := wnaSetSamplingTime (d, T, q) T2
+  let same := d' == d && T' == T && q' == q
+  pure s!"ok {if defaultSetProperty "reset" then 1 else 0} {if defaultSetProperty "anything" then 1 else 0} {if ok then 1 else 0} {if same then "unchanged" else "changed"}"
+
+def wna_move : R String := do
+  let d ← dim; let T ← rat; let q ← rat
+  let d2 ← dim; let T2 ← rat; let q2 ← rat
+  let mode ← nat; let c1 ← nat; let c2 ← nat
+  let n := d.n * 2
+  let S ← matCM rat n n
+  let nd ← nat
+  let ds ← listOf nd rat
+  done
+  let a : WnaObj Rat := { dim := d, T := T, q := q, rng := ⟨streamOf ds.toArray, 0⟩ }
+  let (_, r1) := noiseSample (n := n) S a.rng c1
+  let a := { a with rng := r1 }
+  let other : WnaObj Rat := { dim := d2, T := T2, q := q2, rng := ⟨fun _ => 0, 0⟩ }
+  let b := if mode == 0 then a.moveFrom else WnaObj.moveAssign other a
+  if h : b.dim = d then
+    let F := Mat.eval (wnaF b.dim b.T)
+    let Q := Mat.eval (wnaQ b.dim b.T b.q)
+    let S' : Mat Rat (b.dim.n * 2) (b.dim.n * 2) := h ▸ S
+    let (Y, r2) := noiseSample S' b.rng c2
+    pure (join (["ok", toString (b.dim.n * 2)] ++ outMatCM ratStr F ++ outMatCM ratStr Q ++ outMatCM ratStr Y ++ [toString r2.pos]))
+  else pure "moved-object-has-another-dim"
 
 def grid : R String := do
   let xinf ← rat; let xsup ← rat; let yinf ← rat; let ysup ← rat
@@ -294,6 +329,8 @@ def handle (op : String) (args : List String) : Option String :=
   | "sim" => some ((run sim args).getD "bad-args")
   | "sensor" => some ((run sensor args).getD "bad-args")
   | "sensor_descr" => some ((run sensor_descr args).getD "bad-args")
+  | "wna_plumb" => some ((run wna_plumb args).getD "bad-args")
+  | "wna_move" => some ((run wna_move args).getD "bad-args")
   | "grid" => some ((run grid args).getD "bad-args")
   | _ => none
 
